@@ -56,9 +56,12 @@ def function_level(ctx, rep):
     cases = []
     exhaustive_scopes = []
     for D in (1, 2, 3, 4, 5, 6):
-        for ratio in (1, 2, 4):
+        for ratio in (1, 2, 4, 1.5, 2.5, 3.7, 0.5, 0.3, 8):
             limit = (3000 if D <= 2 else 250 if D == 3 else 60) if ctx.quick else (20000 if D <= 3 else 400)
-            nmax = ratio
+            if ratio not in (1, 2, 4):
+                # non-integer / other mesh ratios (poll_mesh_multiplier, search_grid_multiplier away from their defaults): sampled
+                limit = min(limit, 40 if ctx.quick else 400)
+            nmax = max(1, int(round(ratio)))        # Python's round = half-to-even, as np.round in the code
             total = ((2 * nmax - 1) ** (D * (D - 1) // 2)) * (2 ** D) * int(np.prod(range(1, D + 1)))
             if total <= limit:
                 exhaustive_scopes.append(f"D={D},ratio={ratio} ({total} outcomes)")
